@@ -62,13 +62,14 @@ def run_one(patch, pid, scale, tag):
     return ("MISSED", "", "", "", 0)
 
 def main():
-    only = None; scale = 2.0; tag = "sweep"
+    only = None; scale = 2.0; tag = "sweep"; shard = (0, 1)
     a = sys.argv[1:]
     while a:
         x = a.pop(0)
         if x == "--only": only = a.pop(0)
         elif x == "--seconds-scale": scale = float(a.pop(0))
         elif x == "--tag": tag = a.pop(0)
+        elif x == "--shard": i, n = a.pop(0).split("/"); shard = (int(i), int(n))
     items = []
     for d in sorted(glob.glob(os.path.join(ROOT, "seeded/*/patch.diff"))):
         name = os.path.basename(os.path.dirname(d))
@@ -96,6 +97,7 @@ def main():
         line = "\t".join([name, pid, v[0], v[1], str(v[2]), v[3], "%.0f" % v[4]])
         print(line, flush=True)
         with open(outp, "a") as o: o.write(line + "\n")
+    items = [it for k, it in enumerate(items) if k % shard[1] == shard[0]]
     for (name, pid, f) in items:
         if only and not (name.split(":")[1].startswith(only) or pid == only): continue
         if (name, pid) in done: continue
